@@ -58,7 +58,8 @@ MANIFEST = {
             '(command, files and instance attributes must agree), and the real '
             'ResourceManager.find_launcher is checked against the configured '
             'order.'
-            '  Second session: JSRUN_ERF placements with uneven resource-set sizes; find_launcher is called on a resource manager which has chosen launchers for 0-4 earlier tasks.',
+            '  Second session: JSRUN_ERF placements with uneven resource-set sizes; find_launcher is called on a resource manager which has chosen launchers for 0-4 earlier tasks.'
+            '  In half of the history cases the task is a re-run: an earlier generation with the same uid and another placement left its files (rank file, host file) in the same sandbox.',
     'note': 'commands are interpreted, never executed (no MPI/Slurm binaries '
             'in the sandbox); launchers which name no nodes (APRUN, CCMRUN, '
             'JSRUN without ERF) are checked for counts only; IBRUN only for '
@@ -1459,10 +1460,11 @@ def _clean(sbox):
             os.unlink(entry.path)
 
 
-def observe(lm, task, sbox, res):
+def observe(lm, task, sbox, res, keep=False):
     '''call the real methods; record everything they return and write'''
 
-    _clean(sbox)
+    if not keep:
+        _clean(sbox)
     exec_path = '%s/%s.exec.sh' % (sbox, task['uid'])
     obs = {'can': None, 'why': None, 'cmd': None, 'exc': None,
            'env': None, 'exec': None, 'files': dict(),
@@ -1650,7 +1652,26 @@ def run_lm_case(case, res, wd):
         sbs.append(sb)
         obs_a = observe(lm_h, make_task(a, alloc, label, sb), sb, res)
         check_cmd(obs_a, a, alloc, label, res, case)
-    obs_h   = observe(lm_h, make_task(B, alloc, label, sb_hist), sb_hist, res)
+    # in half of the cases with a history the sandbox of B is not new either:
+    # an earlier generation of the same task (same uid, persistent sandbox,
+    # other placement) left its files there
+    import zlib
+    rerun = bool(A) and zlib.crc32(('%s/%s' % (B['uid'], label)).encode()) % 2
+    if rerun:
+        prev = dict(A[0]); prev['uid'] = B['uid']
+        obs_p = observe(lm_h, make_task(prev, alloc, label, sb_hist), sb_hist,
+                        res)
+        obs_h = observe(lm_h, make_task(B, alloc, label, sb_hist), sb_hist,
+                        res, keep=True)
+        for fname in list(obs_h['files']):
+            # (files only the earlier generation wrote are still there)
+            if fname not in obs_f['files'] and \
+                    obs_p['files'].get(fname) == obs_h['files'][fname]:
+                del obs_h['files'][fname]
+        res.count('reruns_in_a_used_sandbox')
+    else:
+        obs_h = observe(lm_h, make_task(B, alloc, label, sb_hist), sb_hist,
+                        res)
     snap_h1 = snapshot(lm_h, [sb_hist] + sbs)
 
     res.count('history_pairs')
